@@ -18,6 +18,9 @@ m = {
     "engines": [
         {"name": "cs", "path": "engine/", "serves_properties": sorted(k for k, v in CLAIMED.items() if v.get("engine", "cs") == "cs"),
          "kind_free_text": "choice-sequence property-based testing engine in C: random / exhaustive small-scope enumeration / replay / shrinking over one decoder, forked workers, guard-page arena"},
+        {"name": "c18-program-generator", "path": "props/c18/", "serves_properties": ["C18"], "kind_free_text": "seeded generator of client programs x build matrix with spy TU and positive controls"},
+        {"name": "c19-native+valgrind", "path": "props/c19/", "serves_properties": ["C19"], "kind_free_text": "exhaustive/random result enumeration (native) and secret-taint tracking under Valgrind memcheck"},
+        {"name": "c17-hypothesis", "path": "props/c17/", "serves_properties": ["C17"], "kind_free_text": "Python + ctypes: exhaustive code point sweeps and Hypothesis string strategies against CPython unicodedata"},
     ],
     "checks": [],
     "not_applicable": [],
